@@ -34,7 +34,7 @@ IT_HEADS = {"IRep", "ISep", "IEnum", "IMap", "IMapWith", "IOrNot", "IRepCfg"}
 LIST_G = {"Group", "Choice", "ChoiceVec"}
 
 def is_g(x):
-    return (isinstance(x, str) and x in G_HEADS) or (isinstance(x, list) and x and x[0] in G_HEADS)
+    return (isinstance(x, str) and x in G_HEADS) or (isinstance(x, list) and len(x) > 0 and isinstance(x[0], str) and x[0] in G_HEADS)
 
 def g_children(x):
     """Direct sub-grammars (of type G) of a grammar or iterable node, descending through IT nodes."""
@@ -43,7 +43,7 @@ def g_children(x):
     h = x[0]
     for a in x[1:]:
         if is_g(a): out.append(a)
-        elif isinstance(a, list) and a and a[0] in IT_HEADS: out.extend(g_children(a))
+        elif isinstance(a, list) and a and isinstance(a[0], str) and a[0] in IT_HEADS: out.extend(g_children(a))
         elif h in LIST_G and isinstance(a, list): out.extend(y for y in a if is_g(y))
     return out
 
